@@ -314,6 +314,7 @@ func (ex *Exec) subObject(key string, base *Term) *Term {
 		ex.assume(ts.True(), ts.And(
 			ts.Eq(ex.uf("inv!"+key, SInt, t), base),
 			ts.Eq(ex.uf("addrkind", SInt, t), ts.Int(int64(ex.kindIDs[key]))),
+			ts.Eq(ex.uf("alloctime", SInt, t), ex.uf("alloctime", SInt, base)),
 			ts.Neq(t, ts.Int(0))))
 	}
 	return t
